@@ -3,12 +3,13 @@
 // Harness for C16: drives the real BUILD loaders of grog/internal/loading, one case per stdin
 // line (tab separated fields, strings hex encoded, "-" = empty), one observation per line.
 //
-//	scanmk   <content>                      real Makefile annotation parser on the bytes
-//	scansh   <file name> <content>          real script annotation parser
+//	scanmk   <content> [<maxlen>]           real Makefile annotation parser on the bytes (optional bufio token limit)
+//	scansh   <file name> <content> [<maxlen>]   real script annotation parser
 //	yamlann  mk|sh <annotation block>       yaml.Unmarshal into the annotation struct (oracle for the model)
 //	glob     <dir> <pattern>                doublestar.Glob(os.DirFS(dir), pattern, WithFilesOnly()) (oracle for the model)
 //	enrich   <ws root> <pkg path> <PackageDTO as JSON>      getEnrichedPackage
 //	loadfile <ws root> <abs file> <file name>               LoadIfMatched + GetPackagePath + getEnrichedPackage (the worker body of load.go)
+//	nilcheck <abs file> <file name>                         LoadIfMatched only: ok <nil entries in Targets> <nil entries in Aliases> | none
 //	load     <ws root> <num_workers>                        loading.LoadPackages (+ model.BuildNodeMapFromPackages verdict)
 //	merge    <ws root> <JSON [[pkg path, PackageDTO], ...]> getEnrichedPackage per fragment, merged in the given order with mergePackages as load.go does
 //
@@ -283,7 +284,11 @@ func handle(f []string) string {
 	switch f[0] {
 	case "scanmk":
 		return guarded(func() string {
-			dto, found, err := loading.VerifParseMakefile(w.Unhex(f[1]))
+			max := 0
+			if len(f) > 2 {
+				max, _ = strconv.Atoi(f[2])
+			}
+			dto, found, err := loading.VerifParseMakefileMax(w.Unhex(f[1]), max)
 			if err != nil {
 				return errLine(err)
 			}
@@ -291,7 +296,11 @@ func handle(f []string) string {
 		})
 	case "scansh":
 		return guarded(func() string {
-			dto, found, err := loading.VerifParseScript(w.Unhex(f[1]), w.Unhex(f[2]))
+			max := 0
+			if len(f) > 3 {
+				max, _ = strconv.Atoi(f[3])
+			}
+			dto, found, err := loading.VerifParseScriptMax(w.Unhex(f[1]), w.Unhex(f[2]), max)
 			if err != nil {
 				return errLine(err)
 			}
@@ -329,6 +338,25 @@ func handle(f []string) string {
 		})
 	case "loadfile":
 		return guarded(func() string { return doLoadFile(w.Unhex(f[1]), w.Unhex(f[2]), w.Unhex(f[3])) })
+	case "nilcheck":
+		return guarded(func() string {
+			dto, matched, err := loading.NewPackageLoader(logger).LoadIfMatched(ctx(), w.Unhex(f[1]), w.Unhex(f[2]))
+			if err != nil || !matched {
+				return "none"
+			}
+			nt, na := 0, 0
+			for _, t := range dto.Targets {
+				if t == nil {
+					nt++
+				}
+			}
+			for _, a := range dto.Aliases {
+				if a == nil {
+					na++
+				}
+			}
+			return fmt.Sprintf("ok\t%d\t%d", nt, na)
+		})
 	case "load":
 		n, _ := strconv.Atoi(f[2])
 		return guarded(func() string { return doLoad(w.Unhex(f[1]), n) })
